@@ -49,8 +49,23 @@ class RegexDef:
         self.symbol = symbol  # module-level name when the object is a module constant
 
 
+_mc_cache: Dict[Tuple[int, str], ast.expr] = {}
+_imports_cache: Dict[int, Dict[str, str]] = {}
+
+
+def imports_of(m: pf.Module) -> Dict[str, str]:
+    d = _imports_cache.get(id(m))
+    if d is None:
+        d = m.imports()
+        _imports_cache[id(m)] = d
+    return d
+
+
 def module_const(m: pf.Module, name: str) -> ast.expr:
     """The unique module-level binding of `name` (no rebinding, no `global name`)."""
+    hit = _mc_cache.get((id(m), name))
+    if hit is not None:
+        return hit
     vals: List[ast.expr] = []
 
     def scan(stmts):
@@ -82,6 +97,7 @@ def module_const(m: pf.Module, name: str) -> ast.expr:
             raise AnalysisError(f'{m.rel}: `global {name}` makes the module constant rebindable')
     if len(vals) != 1 or not isinstance(vals[0], ast.expr):
         raise AnalysisError(f'{m.rel}: expected exactly one plain module-level binding of {name}, found {len(vals)}')
+    _mc_cache[(id(m), name)] = vals[0]
     return vals[0]
 
 
@@ -100,7 +116,7 @@ def const_string(m: pf.Module, fn: Optional[pf.FuncDef], e: ast.AST, depth: int 
             if d is None or not isinstance(d, ast.expr):
                 raise AnalysisError(f'{m.rel}: `{e.id}` is not a single-assignment local')
             return const_string(m, fn, d, depth - 1)
-        if e.id in m.imports():
+        if e.id in imports_of(m):
             r = resolve_import(m, e.id, PACKAGE_ROOTS)
             if r is None:
                 raise AnalysisError(f'{m.rel}: cannot follow the import of `{e.id}`')
@@ -112,7 +128,7 @@ def const_string(m: pf.Module, fn: Optional[pf.FuncDef], e: ast.AST, depth: int 
 def _re_module_names(m: pf.Module) -> Tuple[set, Dict[str, str]]:
     """(names bound to the `re` module, names bound to re functions -> function name)."""
     mods, funcs = set(), {}
-    for local, origin in m.imports().items():
+    for local, origin in imports_of(m).items():
         if origin == 're':
             mods.add(local)
         elif origin.startswith('re.') and origin.count('.') == 1:
@@ -157,7 +173,7 @@ def _compile_call(m: pf.Module, fn: Optional[pf.FuncDef], e: ast.AST, where: str
 def resolve_import(m: pf.Module, local: str, package_roots: Dict[str, str]) -> Optional[Tuple[pf.Module, str]]:
     """`from pkg.mod import sym [as local]` -> (module of pkg.mod, sym), for packages listed in package_roots
     (dotted prefix -> repository-relative directory)."""
-    origin = m.imports().get(local)
+    origin = imports_of(m).get(local)
     if origin is None:
         return None
     if origin.startswith('.'):
@@ -204,7 +220,7 @@ def resolve_regex(m: pf.Module, fn: Optional[pf.FuncDef], e: ast.AST, package_ro
             if d is None:
                 return resolve_regex(m, fn, v, package_roots) if isinstance(v, ast.Name) else _fail(m, e)
             return d
-        if e.id in m.imports():
+        if e.id in imports_of(m):
             r = resolve_import(m, e.id, package_roots or PACKAGE_ROOTS)
             if r is None:
                 _fail(m, e)
@@ -311,7 +327,7 @@ class Translator:
 
         def chars_of(x: ast.AST) -> R.CharSet:
             d = pf.dotted(x)
-            if d in _STRING_CONSTANTS and d.split('.')[0] in self.m.imports() and self.m.imports()[d.split('.')[0]] == 'string':
+            if d in _STRING_CONSTANTS and d.split('.')[0] in imports_of(self.m) and imports_of(self.m)[d.split('.')[0]] == 'string':
                 return R.CharSet.of(_STRING_CONSTANTS[d])
             if isinstance(x, (ast.Tuple, ast.List, ast.Set)):
                 items = [const_string(self.m, self.fn, y) for y in x.elts]
